@@ -302,13 +302,13 @@ func scenarioTiles(t *traceWriter, rng *rand.Rand) {
 				sdb.mu.Unlock()
 			}
 		}
-		ctx, cancel := context.WithTimeout(context.Background(), 6*time.Second)
+		ctx, cancel := context.WithTimeout(context.Background(), 13*time.Second)
 		done := make(chan struct{})
 		go func() {
 			_ = sumdbfeeder.FeedLog(ctx, lcfg, gw, &http.Client{Transport: sdb}, 40*time.Millisecond)
 			close(done)
 		}()
-		deadline := time.Now().Add(5 * time.Second)
+		deadline := time.Now().Add(12 * time.Second)
 		for time.Now().Before(deadline) {
 			gw.mu.Lock()
 			reached := gw.size == uint64(sched[len(sched)-1])
